@@ -26,7 +26,13 @@ func (i *Interpreter) resolveIncludeStatement(statements []ast.Statement, isRoot
 			if err != nil {
 				return nil, exception.Runtime(&stmt.GetMeta().Token, "%s", err.Error())
 			}
+			// Prevent circular include, module must not be included while it is including other modules
+			if _, ok := i.includeStack[include.Module.Value]; ok {
+				return nil, exception.Runtime(&stmt.GetMeta().Token, "circular include of VCL module '%s'", include.Module.Value)
+			}
+			i.includeStack[include.Module.Value] = struct{}{}
 			recursive, err := i.resolveIncludeStatement(included, isRoot)
+			delete(i.includeStack, include.Module.Value)
 			if err != nil {
 				return nil, err
 			}
